@@ -64,30 +64,34 @@ def dispatcher_check(ctx):
         reg = {}
         log = []
         for step in range(12):
-            n = rng.choice(fc.NAMES)
-            if tuple(n) in reg and rng.random() < 0.5:
-                d.unregister(fibkit.name_repr(n, rng.choice(fc.REPRS)))
-                del reg[tuple(n)]
-            elif tuple(n) in reg:
-                try:
-                    d.register(fibkit.name_repr(n, rng.choice(fc.REPRS)), lambda *a: None)
-                    ctx.violation('C04/Dispatcher/register-dup/accepted', 'duplicate registration accepted', {'reg': sorted(reg)})
-                except ValueError:
-                    pass
-            else:
-                h = len(log) + step * 100
-                d.register(fibkit.name_repr(n, rng.choice(fc.REPRS)), (lambda hh: (lambda name, p, ap: log.append(hh)))(h))
-                reg[tuple(n)] = h
-            q = rng.choice(fc.NAMES[1:]) + rng.choice([[], ['x']])
-            cands = [k for k in reg if list(k) == q[:len(k)]]
-            before = len(log)
-            ret = d.dispatch(enc.Name.from_str('/' + '/'.join(q)), enc.InterestParam(), None)
-            want = reg[max(cands, key=len)] if cands else None
-            got = log[before:] if len(log) > before else []
-            ctx.evaluations += 1
-            if (want is None and (ret or got)) or (want is not None and (not ret or got != [want])):
-                ctx.violation('C04/Dispatcher/dispatch/wrong-handler', 'dispatch(%s) -> %s, expected %s' % (q, got, want),
-                              {'reg': {'/'.join(k): v for k, v in reg.items()}, 'q': q})
+          try:
+              n = rng.choice(fc.NAMES)
+              if tuple(n) in reg and rng.random() < 0.5:
+                  d.unregister(fibkit.name_repr(n, rng.choice(fc.REPRS)))
+                  del reg[tuple(n)]
+              elif tuple(n) in reg:
+                  try:
+                      d.register(fibkit.name_repr(n, rng.choice(fc.REPRS)), lambda *a: None)
+                      ctx.violation('C04/Dispatcher/register-dup/accepted', 'duplicate registration accepted', {'reg': sorted(reg)})
+                  except ValueError:
+                      pass
+              else:
+                  h = len(log) + step * 100
+                  d.register(fibkit.name_repr(n, rng.choice(fc.REPRS)), (lambda hh: (lambda name, p, ap: log.append(hh)))(h))
+                  reg[tuple(n)] = h
+              q = rng.choice(fc.NAMES[1:]) + rng.choice([[], ['x']])
+              cands = [k for k in reg if list(k) == q[:len(k)]]
+              before = len(log)
+              ret = d.dispatch(enc.Name.from_str('/' + '/'.join(q)), enc.InterestParam(), None)
+              want = reg[max(cands, key=len)] if cands else None
+              got = log[before:] if len(log) > before else []
+              ctx.evaluations += 1
+              if (want is None and (ret or got)) or (want is not None and (not ret or got != [want])):
+                  ctx.violation('C04/Dispatcher/dispatch/wrong-handler', 'dispatch(%s) -> %s, expected %s' % (q, got, want),
+                                {'reg': {'/'.join(k): v for k, v in reg.items()}, 'q': q})
+          except Exception as ex:  # noqa
+            ctx.violation('C04/Dispatcher/raised:%s' % type(ex).__name__, 'Dispatcher raised %r' % (ex,), {'reg': sorted('/'.join(k) for k in reg)})
+            break
 
 
 def replay(ctx, path):
